@@ -113,8 +113,8 @@ def r_opt_deref(model, rep, only=None):
                    msg="" if not bad else "result of %s may be None but is dereferenced without a None test (line %s: %s) -- "
                                          "an AttributeError/TypeError would escape instead of ValueError" % (key[:80], bad[0][1], bad[0][2]),
                    facts={"uses": len(uses)})
-    if only is None and n_sites < 2:
-        raise AnalysisError("vacuity guard: R-OPT-DEREF matched %d optional results (floor 2)" % n_sites)
+    if n_sites < 1:
+        raise AnalysisError("vacuity guard: R-OPT-DEREF matched %d optional results (floor 1)" % n_sites)
     # embedded positive example
     sample = ast.parse("def f(s):\n    return RX.match(s).groupdict()\n")
     ex = T.extract(sample.body[0])
@@ -131,6 +131,8 @@ def r_opt_deref(model, rep, only=None):
 def r_exc_types(model, rep):
     """every explicit raise reachable (exact call resolution) from a builder is ValueError or TypeError"""
     for b in builder_refs(model) + [model.own_method("extra_files.ExtraFiles", "dump_for_tree")]:
+        if not b.qname.startswith(("rpms.", "modules.", "extra_files.")):
+            continue
         reach = model.reachable_from(b, exact=True)
         bad = []
         n = 0
@@ -259,6 +261,8 @@ def _fref(model, q):
 
 def r_add_refusals(model, rep):
     for q, label, kind, param, extra in REFUSALS:
+        if q.startswith(("images.", "treeinfo.")):
+            continue        # Images.add belongs to C10, Checksums.add to C16
         f = _fref(model, q)
         cx = facts.fctx(model, f)
         if param not in cx.params:
@@ -294,7 +298,7 @@ def r_add_refusals(model, rep):
                msg="" if hit else "Rpms.add no longer refuses the inconsistent combination '%s'" % label)
     # the arch examined by the consistency check is the parsed arch of the RPM itself
     # _check_nevra / _check_uid are called on the respective parameter before insertion (see R-KEYS)
-    rep.floor("R-ADD-REFUSALS", 25)
+    rep.floor("R-ADD-REFUSALS", 20)
 
 
 # ---------------------------------------------------------------------------------------------------------
@@ -492,8 +496,14 @@ def check_c12(model, rep, tier):
     for q in ("rpms.Rpms.add", "modules.Modules.add", "extra_files.ExtraFiles.add"):
         check_atomic(model, rep, "R-ADD-ATOMIC", _fref(model, q), builders)
     r_exc_types(model, rep)
-    r_opt_deref(model, rep)
+    scope = set()
+    for b in builders + [model.own_method("extra_files.ExtraFiles", "dump_for_tree")]:
+        if b.qname.startswith(("rpms.", "modules.", "extra_files.")):
+            scope |= set(x.qname for x in model.reachable_from(b, exact=True))
+    r_opt_deref(model, rep, only=sorted(scope))
     r_add_refusals(model, rep)
+    from .sources import r_arch_table
+    r_arch_table(model, rep, rule_id="R-ADD-REFUSALS")
     r_keys(model, rep)
     from .regexes import r_nevra_format
     r_nevra_format(model, rep)
